@@ -336,6 +336,10 @@ func (e *evidence) write(path string) error {
 		"corpus_sources":                       len(d.corpus.progs),
 		"raw_findings":                         e.rawFindings,
 		"known_findings_matched":               e.known,
+		"enumerated_strata": map[string]any{
+			"T1_reuse_pairs_on_one_spirv_backend": map[string]any{"programs": len(d.pairProgs), "ordered_pairs": len(d.pairProgs) * len(d.pairProgs), "executed": e.families["T1-reuse-pair"], "exhaustive": len(d.pairProgs) > 0 && e.families["T1-reuse-pair"] == len(d.pairProgs)*len(d.pairProgs)},
+			"T2_one_map_site_reversed_at_a_time":  map[string]any{"program_operation_site_triples_reached": len(d.siteJobs), "executed": e.families["T2-single-site"], "exhaustive": len(d.siteJobs) > 0 && e.families["T2-single-site"] == len(d.siteJobs)},
+		},
 		"package_state_writes_in_packages_with_sync_primitives_not_judged": e.syncedWrites,
 		"mismatches_attributed_to_a_reported_or_known_module_alteration":   e.consequences,
 		"twin_runs_with_identical_results_but_different_event_log":         e.twinLogDiffs,
